@@ -6,7 +6,7 @@
    library's demultiplexer (vbi_dvb_demux_feed) and the frames it delivers are
    appended to the output line (` | frame <pts> <n> [<id> <line> <hex>]*`).  That
    mode is used by the property oracle only (the model does not answer it).
-   With argv[1] == "--raw" the `feedraw` op is enabled (oracle only as well). */
+   `--raw` is accepted and ignored (the `feedraw` ops are always enabled since round 3). */
 #include "hutil.h"
 #include <stdarg.h>
 #include "src/dvb_mux.c"
@@ -159,8 +159,25 @@ int main(int argc, char **argv)
 			printf("ok %s %u %u %ld ", ok ? "true" : "false", p_left, s_left, (long)(p - buf));
 			h_puthex(buf, (int) a); printf("\n");
 			free(buf); free(s);
+		} else if (H_IS(0, "mraw")) {
+			/* mraw <packet_left> <dataid> <videostd 0|1=625|2=525|3=both> <line> <first_pixel_position> <n_pixels_total>
+			        <stuffing> <raw_left> <seed> : vbi_dvb_multiplex_raw on raw_left samples (seed + 7 k) & 255 */
+			long long did, vs, line, fpp, ntot, st, rl, seed, k; uint8_t *buf, *p, *raw; const uint8_t *rp; unsigned p_left, r_left; vbi_bool ok;
+			if (h_ntok != 10 || !NAT(1, a) || !NAT(2, did) || !NAT(3, vs) || !NAT(4, line) || !NAT(5, fpp) || !NAT(6, ntot)
+			    || !NAT(7, st) || !NAT(8, rl) || !NAT(9, seed) || a > 70000 || vs > 3 || st > 1 || rl > 2000 || did > 0xFFFFFFFFLL
+			    || line > 0xFFFFFFFFLL || fpp > 0xFFFFFFFFLL || ntot > 0xFFFFFFFFLL) { printf("rej parse\n"); continue; }
+			buf = malloc(a ? (size_t) a : 1); memset(buf, 0xAA, (size_t) a);
+			raw = malloc(rl ? (size_t) rl : 1);
+			for (k = 0; k < rl; ++k) raw[k] = (uint8_t)(seed + k * 7);
+			p = buf; p_left = (unsigned) a; rp = raw; r_left = (unsigned) rl;
+			ok = vbi_dvb_multiplex_raw(&p, &p_left, &rp, &r_left, (unsigned) did,
+						   ((vs & 1) ? VBI_VIDEOSTD_SET_625_50 : 0) | ((vs & 2) ? VBI_VIDEOSTD_SET_525_60 : 0),
+						   (unsigned) line, (unsigned) fpp, (unsigned) ntot, (vbi_bool) st);
+			printf("ok %s %u %u %ld %ld ", ok ? "true" : "false", p_left, r_left, (long)(p - buf), (long)(rp - raw));
+			h_puthex(buf, (int) a); printf("\n");
+			free(buf); free(raw);
 		} else if (!mx && (H_IS(0, "dataid") || H_IS(0, "size") || H_IS(0, "feed") || H_IS(0, "cor")
-				   || H_IS(0, "corall") || H_IS(0, "reset") || H_IS(0, "state") || H_IS(0, "feedraw"))) {
+				   || H_IS(0, "corall") || H_IS(0, "reset") || H_IS(0, "state") || H_IS(0, "feedraw") || H_IS(0, "feedraw2"))) {
 			printf("rej nomux\n");
 		} else if (H_IS(0, "dataid")) {
 			if (h_ntok != 2 || !NAT(1, a)) { printf("rej parse\n"); continue; }
@@ -171,9 +188,9 @@ int main(int argc, char **argv)
 			printf("ok %u %u\n", vbi_dvb_mux_get_min_pes_packet_size(mx), vbi_dvb_mux_get_max_pes_packet_size(mx));
 		} else if (H_IS(0, "state")) {
 			if (h_ntok != 1) { printf("rej parse\n"); continue; }
-			printf("ok dataid=%u min=%u max=%u pid=%u cc=%u pending=%u\n", vbi_dvb_mux_get_data_identifier(mx),
+			printf("ok dataid=%u min=%u max=%u pid=%u cc=%u pending=%u rawleft=%u\n", vbi_dvb_mux_get_data_identifier(mx),
 			       mx->min_packet_size, mx->max_packet_size, mx->pid, mx->continuity_counter & 15,
-			       mx->cor_offset < mx->cor_end ? mx->cor_end - mx->cor_offset : 0);
+			       mx->cor_offset < mx->cor_end ? mx->cor_end - mx->cor_offset : 0, mx->raw_samples_left);
 		} else if (H_IS(0, "reset")) {
 			if (h_ntok != 1) { printf("rej parse\n"); continue; }
 			vbi_dvb_mux_reset(mx);
@@ -217,22 +234,26 @@ int main(int argc, char **argv)
 			emit_demux(out_buf, out_len);
 			end_line();
 			free(s);
-		} else if (H_IS(0, "feedraw") && raw_mode) {
-			/* feedraw <pts> <mask> <offset> <samples_per_line> <start0> <count0> <start1> <count1> <seed> <n> lines
-			   raw frame = (count0 + count1) lines of samples_per_line bytes, byte k of the frame = (seed + k * 7) & 255 */
-			vbi_sliced *s; vbi_bool ok; unsigned i; long long off, spl, s0, c0, s1, c1, seed; vbi_sampling_par sp; uint8_t *raw; size_t rn, k;
-			if (h_ntok < 11 || !NUM(1, a) || !NAT(2, b) || !NAT(3, off) || !NAT(4, spl) || !NAT(5, s0) || !NAT(6, c0)
-			    || !NAT(7, s1) || !NAT(8, c1) || !NAT(9, seed) || !NAT(10, n) || spl > 4096 || c0 > 64 || c1 > 64
-			    || !(s = parse_lines(11, n))) { printf("rej parse\n"); continue; }
+		} else if (H_IS(0, "feedraw") || H_IS(0, "feedraw2")) {
+			/* feedraw  <pts> <mask> <offset> <samples_per_line> <start0> <count0> <start1> <count1> <seed> <n> lines
+			   feedraw2 <pts> <mask> <offset> <samples_per_line> <start0> <count0> <start1> <count1> <seed> <interlaced> <rawnull> <n> lines
+			   raw frame = (count0 + count1) lines of samples_per_line bytes, byte k of the frame = (seed + k * 7) & 255,
+			   exact-size heap allocation; rawnull = 1: raw == NULL (sp still passed) */
+			vbi_sliced *s; vbi_bool ok; unsigned i; long long off, spl, s0, c0, s1, c1, seed, il = 0, rnull = 0; vbi_sampling_par sp; uint8_t *raw; size_t rn, k;
+			int two = H_IS(0, "feedraw2"), at = two ? 12 : 10;
+			if (h_ntok < at + 1 || !NUM(1, a) || !NAT(2, b) || !NAT(3, off) || !NAT(4, spl) || !NAT(5, s0) || !NAT(6, c0)
+			    || !NAT(7, s1) || !NAT(8, c1) || !NAT(9, seed) || (two && (!NAT(10, il) || !NAT(11, rnull) || il > 1 || rnull > 1))
+			    || !NAT(at, n) || spl > 4096 || c0 > 64 || c1 > 64 || off > 1000000 || s0 > 1000000 || s1 > 1000000
+			    || !(s = parse_lines(at + 1, n))) { printf("rej parse\n"); continue; }
 			memset(&sp, 0, sizeof sp);
 			sp.scanning = 625; sp.sampling_format = VBI_PIXFMT_YUV420; sp.sampling_rate = 13500000;
 			sp.bytes_per_line = (int) spl; sp.offset = (int) off; sp.start[0] = (int) s0; sp.count[0] = (int) c0;
-			sp.start[1] = (int) s1; sp.count[1] = (int) c1; sp.interlaced = FALSE; sp.synchronous = TRUE;
+			sp.start[1] = (int) s1; sp.count[1] = (int) c1; sp.interlaced = (vbi_bool) il; sp.synchronous = TRUE;
 			rn = (size_t)(c0 + c1) * (size_t) spl;
 			raw = malloc(rn ? rn : 1);
 			for (k = 0; k < rn; ++k) raw[k] = (uint8_t)(seed + (long long) k * 7);
 			out_len = 0; out_calls = 0; cb_fail_at = 0;
-			ok = vbi_dvb_mux_feed(mx, s, (unsigned) n, (vbi_service_set)(uint32_t) b, raw, &sp, (int64_t) a);
+			ok = vbi_dvb_mux_feed(mx, s, (unsigned) n, (vbi_service_set)(uint32_t) b, rnull ? NULL : raw, &sp, (int64_t) a);
 			printf("ok %s %u ", ok ? "true" : "false", out_calls);
 			if (!out_calls) printf("-");
 			for (i = 0; i < out_calls && i < 4096; ++i) printf("%s%u", i ? "," : "", out_sizes[i]);
